@@ -27,6 +27,29 @@ pub struct Case {
     pub min_points: usize,
     pub tol: f64,
     pub metric: Metric,
+    /// builder recipe (see `run::Build`): constructor, then setter calls in this order; the values
+    /// in force at the end are always `tol` and the index under test
+    #[serde(default)]
+    pub ctor: u8,
+    #[serde(default)]
+    pub steps: Vec<u8>,
+}
+
+fn classify_build(c: &Case, obs: &mut Obs) {
+    let last_tol = c.steps.iter().rposition(|&s| s == 0 || s == 1);
+    let real_tol_stays = matches!(last_tol, Some(p) if c.steps[p] == 0);
+    obs.class_if(c.steps.is_empty() && c.ctor == 0, "builder_plain");
+    obs.class_if(c.ctor == 2 && c.metric == Metric::L2, "builder_default_constructor");
+    obs.class_if(c.steps.iter().filter(|&&s| s == 0 || s == 1).count() >= 2, "builder_tolerance_set_twice");
+    obs.class_if(
+        real_tol_stays && last_tol.map_or(false, |p| c.steps[p + 1..].iter().any(|&s| s == 2 || s == 3)),
+        "builder_tolerance_then_nn_algo",
+    );
+    obs.class_if(
+        real_tol_stays && last_tol.map_or(false, |p| c.steps[p + 1..].iter().any(|&s| s >= 4)),
+        "builder_tolerance_then_dist_fn",
+    );
+    obs.class_if(c.steps.iter().any(|&s| s == 3) || c.ctor != 0, "builder_index_replaced");
 }
 
 // ------------------------------------------------------------------------------------------------
@@ -150,6 +173,8 @@ fn check_dbscan(c: &Case, obs: &mut Obs) {
         None => return,
     };
     let n = g.n;
+    classify_build(c, obs);
+    let build = run::Build { ctor: c.ctor, steps: &c.steps };
     let strict = Density::new(&g, c.min_points, Conv::Strict);
     let incl = if g.tie { Some(Density::new(&g, c.min_points, Conv::Inclusive)) } else { None };
 
@@ -174,7 +199,7 @@ fn check_dbscan(c: &Case, obs: &mut Obs) {
     let mut results: Vec<Option<Vec<Option<usize>>>> = vec![];
     let mut probed: Vec<Probed> = vec![];
     for (nn, name) in run::INDICES.iter() {
-        let r = obs.call("dbscan", || run::dbscan(&x, c.min_points, c.tol, c.metric, nn.clone(), false));
+        let r = obs.call("dbscan", || run::dbscan(&x, c.min_points, c.tol, c.metric, nn.clone(), false, build));
         let labels = match r {
             None => {
                 results.push(None);
@@ -252,7 +277,7 @@ fn check_dbscan(c: &Case, obs: &mut Obs) {
     // the DatasetBase form must return what the array form returns
     if let Some(Some(direct)) = results.get(1) {
         let r = obs.call("dbscan(dataset)", || {
-            run::dbscan(&x, c.min_points, c.tol, c.metric, run::INDICES[1].0.clone(), true)
+            run::dbscan(&x, c.min_points, c.tol, c.metric, run::INDICES[1].0.clone(), true, build)
         });
         match r {
             Some(Ok(l)) => {
@@ -281,6 +306,8 @@ fn check_optics(c: &Case, obs: &mut Obs) {
         None => return,
     };
     let n = g.n;
+    classify_build(c, obs);
+    let build = run::Build { ctor: c.ctor, steps: &c.steps };
     let strict = Density::new(&g, c.min_points, Conv::Strict);
     let incl = if g.tie { Some(Density::new(&g, c.min_points, Conv::Inclusive)) } else { None };
     let ncore = strict.core.iter().filter(|&&b| b).count();
@@ -297,7 +324,7 @@ fn check_optics(c: &Case, obs: &mut Obs) {
     let mut runs: Vec<Option<(Vec<OSample>, bool, Probed)>> = vec![];
     let mut lowered_any = false;
     for (nn, name) in run::INDICES.iter() {
-        let r = obs.call("optics", || run::optics(&x, c.min_points, c.tol, c.metric, nn.clone()));
+        let r = obs.call("optics", || run::optics(&x, c.min_points, c.tol, c.metric, nn.clone(), build));
         let samples = match r {
             None => {
                 runs.push(None);
@@ -582,8 +609,9 @@ fn bridge_case(tier: Tier, allow_tie: bool) -> impl Strategy<Value = Case> {
         2usize..=6,
         proptest::bool::weighted(if allow_tie { 0.25 } else { 0.0 }),
         any::<u16>(),
+        recipe(),
     )
-        .prop_map(move |((o, v, t, ma, mb), extra, keys, dim, metric, min_points, tie, rank)| {
+        .prop_map(move |((o, v, t, ma, mb), extra, keys, dim, metric, min_points, tie, rank, (ctor, steps))| {
             let c: P3 = [o[0] * Q, o[1] * Q, o[2] * Q];
             let at = |k: i32| -> P3 { [c[0] + v[0] * Q * k, c[1] + v[1] * Q * k, c[2] + v[2] * Q * k] };
             let mut raw: Vec<P3> = vec![c];
@@ -601,9 +629,32 @@ fn bridge_case(tier: Tier, allow_tie: bool) -> impl Strategy<Value = Case> {
             let l = oracle::dist(&conv(&c), &conv(&at(t)), metric);
             let sel = TolSel { tie, rank, low_biased: true, target: if l > 0.0 { Some(l) } else { None } };
             let tol = choose_tolerance(&pts, metric, &sel);
-            Case { dim, pts, min_points, tol, metric }
+            Case { dim, pts, min_points, tol, metric, ctor, steps }
         })
 }
+
+/// Builder recipe: constructor kind and a sequence of setter calls (0 tolerance, 1 decoy tolerance,
+/// 2 index, 3 decoy index, 4 dist_fn). The empty recipe is the plain `params_with(..).tolerance(..)`.
+fn recipe() -> impl Strategy<Value = (u8, Vec<u8>)> {
+    (
+        prop_oneof![4 => Just(0u8), 2 => Just(1u8), 2 => Just(2u8)],
+        prop_oneof![2 => Just(Vec::<u8>::new()).boxed(), 7 => proptest::collection::vec(0u8..=4, 1..=5).boxed()],
+    )
+}
+
+/// Fixed recipes cycled through by the enumerated sub-checks.
+const RECIPES: [(u8, &[u8]); 10] = [
+    (0, &[]),
+    (0, &[0, 2]),
+    (1, &[0, 2]),
+    (2, &[0, 2]),
+    (0, &[0, 3, 2]),
+    (0, &[1, 2, 0]),
+    (0, &[0, 4]),
+    (1, &[2, 0, 0]),
+    (2, &[1, 0, 3]),
+    (1, &[4, 0, 3, 4]),
+];
 
 fn general_case(tier: Tier, allow_tie: bool) -> impl Strategy<Value = Case> {
     let max_n: usize = tier.pick(40, 150);
@@ -616,7 +667,7 @@ fn general_case(tier: Tier, allow_tie: bool) -> impl Strategy<Value = Case> {
     let metric = prop_oneof![Just(Metric::L2), Just(Metric::L1), Just(Metric::LInf)];
     let tolsel = (proptest::bool::weighted(if allow_tie { 0.3 } else { 0.0 }), any::<u16>(), proptest::bool::weighted(0.7))
         .prop_map(|(tie, rank, low_biased)| TolSel { tie, rank, low_biased, target: None });
-    (parts, dups, keys, dim, scale, metric, 2usize..=6, tolsel).prop_map(move |(parts, dups, keys, dim, scale, metric, min_points, sel)| {
+    (parts, dups, keys, dim, scale, metric, 2usize..=6, tolsel, recipe()).prop_map(move |(parts, dups, keys, dim, scale, metric, min_points, sel, (ctor, steps))| {
         let mut raw: Vec<P3> = parts.into_iter().flatten().collect();
         for u in dups {
             if !raw.is_empty() {
@@ -634,7 +685,7 @@ fn general_case(tier: Tier, allow_tie: bool) -> impl Strategy<Value = Case> {
             .map(|p| p.iter().take(dim).map(|&q| (q as f64 / 256.0) * scale).collect())
             .collect();
         let tol = choose_tolerance(&pts, metric, &sel);
-        Case { dim, pts, min_points, tol, metric }
+        Case { dim, pts, min_points, tol, metric, ctor, steps }
     })
 }
 
@@ -662,12 +713,15 @@ fn small_1d(tier: Tier) -> Vec<Case> {
     for (k, s) in seqs.iter().enumerate() {
         for min_points in 2..=4usize {
             for (t, tol) in [0.5, 1.0, 1.5, 2.0, 2.5].iter().enumerate() {
+                let (ctor, steps) = RECIPES[(k + 3 * t + 7 * min_points) % RECIPES.len()];
                 out.push(Case {
                     dim: 1,
                     pts: s.iter().map(|&v| vec![v as f64]).collect(),
                     min_points,
                     tol: *tol,
                     metric: metrics[(k + t) % 3],
+                    ctor,
+                    steps: steps.to_vec(),
                 });
             }
         }
@@ -685,11 +739,14 @@ fn corners(_tier: Tier) -> Vec<Case> {
                 for n in [0usize, 1, 2, 3, 7, 20] {
                     for tol in [0.5, 1.0, 3.0] {
                         let pts: Vec<Vec<f64>> = (0..n).map(|i| (0..dim).map(|j| ((i * (j + 1)) % 5) as f64).collect()).collect();
-                        out.push(Case { dim, pts, min_points, tol, metric });
+                        let (ctor, steps) = RECIPES[out.len() % RECIPES.len()];
+                        out.push(Case { dim, pts, min_points, tol, metric, ctor, steps: steps.to_vec() });
                     }
                 }
             }
-            out.push(Case { dim: 1, pts: vec![vec![0.0], vec![1.0], vec![-1.0]], min_points, tol: 1.5, metric });
+            for (ctor, steps) in RECIPES {
+                out.push(Case { dim: 1, pts: vec![vec![0.0], vec![1.0], vec![-1.0]], min_points, tol: 1.5, metric, ctor, steps: steps.to_vec() });
+            }
         }
     }
     out
@@ -701,7 +758,8 @@ pub fn property() -> Property {
         rule: "cases = (point set assembled from chains, rings, grids, small-integer clouds, gaussian blobs, far noise points and duplicates, \
                rows permuted; 0..=3 features; n 0..=40 quick / 0..=150 thorough; min_points 2..=6; metric L1/L2/Linf; tolerance placed in a gap \
                between sorted pairwise distances = class generic, or bit-equal to one = class tie). Every case is run with LinearSearch, KdTree and \
-               BallTree. Plus exhaustive enumeration of all 1-feature sequences of <= 6 (7) points on 4 (5) integer positions x min_points 2..=4 x \
+               BallTree, the hyper-parameters being assembled by a generated builder recipe (constructor params / params_with with the real or a decoy index, \
+               then up to 5 setter calls out of tolerance(real|decoy), nn_algo(real|decoy), dist_fn, in any order, tolerance possibly twice; the values configured last are the case's). Plus exhaustive enumeration of all 1-feature sequences of <= 6 (7) points on 4 (5) integer positions x min_points 2..=4 x \
                5 tolerances, and a table of degenerate shapes. Non-trivial: DBSCAN = a border point reachable from two clusters, or >= 2 clusters \
                together with noise; OPTICS = some sample whose reachability is smaller than what the first listed core point within the tolerance \
                offered (it was lowered after first being set). Distinct = distinct canonical JSON of the case",
@@ -714,15 +772,16 @@ pub fn property() -> Property {
             "a reachability that is None is always accepted (the statement says 'either undefined or ...'); o may be the sample itself (listed 'no later')".into(),
             "zero features: DBSCAN all-noise or the definitional labelling, OPTICS all-undefined or the definitional analysis are both accepted; no panic".into(),
             "index independence: DBSCAN label vectors identical for the three indices (all classes; in the tie class a difference between indices probed to apply different conventions has its own signature dbscan:index-dependence:tie-convention); OPTICS (index, core, reachability) sequences bit-identical in the generic class, and in the tie class between indices probed to apply the same convention; the LinearSearch listing is compared only when its core distances are the definitional ones and bit-equal to the other index' (a one-ulp different pick among rounding-level ties may re-order exact ties)".into(),
+            "builder: the clustering must be the one for the values configured LAST, whatever the order of constructor and setter calls; the oracle is the same for every recipe".into(),
             "tolerance <= 0, min_points < 2, non-finite coordinates and non-contiguous views are documented preconditions and are not generated".into(),
         ],
         subs: vec![
             prop_sub("optics", 25000, 300000, |t: Tier| case_strategy(t, true), check_optics)
                 .chunks(16)
-                .require(&["tie", "generic", "n_gt_16_tree_branches", "reachability_lowered_after_set", "dim0"]),
+                .require(&["tie", "generic", "n_gt_16_tree_branches", "reachability_lowered_after_set", "dim0", "builder_tolerance_then_nn_algo", "builder_tolerance_then_dist_fn", "builder_tolerance_set_twice", "builder_default_constructor"]),
             prop_sub("dbscan", 25000, 300000, |t: Tier| case_strategy(t, true), check_dbscan)
                 .chunks(16)
-                .require(&["tie", "generic", "n_gt_16_tree_branches", "border_reachable_from_two_clusters", "dim0"]),
+                .require(&["tie", "generic", "n_gt_16_tree_branches", "border_reachable_from_two_clusters", "dim0", "builder_tolerance_then_nn_algo", "builder_tolerance_then_dist_fn", "builder_tolerance_set_twice", "builder_default_constructor"]),
             enum_sub("optics_small_1d", small_1d, check_optics).chunks(16),
             enum_sub("dbscan_small_1d", small_1d, check_dbscan).chunks(16),
             enum_sub("optics_corners", corners, check_optics).chunks(1),
